@@ -207,7 +207,7 @@ class Script:
         try:
             for step, feats in (("features_off_1", []), ("features_on_1", ["extra"]), ("features_on_reference_pristine_cache", ["extra"]),
                                 ("features_off_2", []), ("features_on_2", ["extra"])):
-                toml = e2e_env.APP_TOML + 'extdep = { path = "../extdep", features = [%s] }\n' % ", ".join('"%s"' % x for x in feats)
+                toml = e2e_env.app_toml() + 'extdep = { path = "../extdep", features = [%s] }\n' % ", ".join('"%s"' % x for x in feats)
                 with open(os.path.join(d, "app", "Cargo.toml"), "w") as f:
                     f.write(toml)
                 ok, err = slots.build_app(self.slot)
@@ -231,7 +231,7 @@ class Script:
                 self.steps.append({"step": "feature_history_indistinguishable"})
         finally:
             with open(os.path.join(d, "app", "Cargo.toml"), "w") as f:
-                f.write(e2e_env.APP_TOML)
+                f.write(e2e_env.app_toml())
             shutil.rmtree(ext, ignore_errors=True)
             shutil.rmtree(pristine, ignore_errors=True)
             # the generated manifest depends on `extdep`: leave a neutral SDK behind for whoever uses the slot next
